@@ -227,10 +227,59 @@ pub fn explore(ctx: &Ctx, info: &LangInfo, doc: &[u8], depth: usize, res: &mut S
     }
 }
 
+/// Trees parsed WITH included ranges: the range list a tree stores must move under `Tree::edit` exactly as each range moves
+/// under `InputEdit::edit_range` (which the main exploration checks against the text model), for every list of one range or
+/// of two ranges (adjacent or with a one-byte gap) over the document and every edit. The default range [0, MAX) of the other
+/// trees can never end at or before an edit.
+fn explore_ranged(ctx: &Ctx, info: &LangInfo, doc: &[u8], res: &mut ShardResult) {
+    let n = doc.len();
+    let mut lists: Vec<Vec<(usize, usize)>> = vec![];
+    for a in 0..=n { for b in a..=n { if (a, b) != (0, n) { lists.push(vec![(a, b)]); } } }
+    for k in 0..=n { for g in 0..=1usize { if k + g <= n { lists.push(vec![(0, k), (k + g, n)]); lists.push(vec![(0, k), (k + g, u32::MAX as usize)]); } } }
+    let mut parser = Parser::new();
+    parser.set_language(&info.language).unwrap();
+    for rl in lists {
+        let rs: Vec<tree_sitter::Range> = rl.iter().map(|&(s, e)| crate::checks::c13::mk_range(doc, s, e)).collect();
+        if parser.set_included_ranges(&rs).is_err() { continue; }
+        let tree = parser.parse(doc, None).unwrap();
+        res.states += 1;
+        for e in edits_for(n) {
+            if e.ins.len() > 2 { continue; }
+            let (_nt, ie) = text::apply(doc, &e);
+            let mut cj = case_json(&info.name, doc, &[e.clone()]);
+            cj["ranges"] = json!(rl);
+            crate::case!("{}", cj);
+            let mut edited = tree.clone();
+            edited.edit(&ie);
+            res.transitions += 1;
+            let want: Vec<tree_sitter::Range> = tree.included_ranges().into_iter().map(|mut r| { ie.edit_range(&mut r); r }).collect();
+            let got = edited.included_ranges();
+            if rl.iter().any(|&(_, b)| b <= e.start) { res.nontrivial += 1; }
+            if got != want {
+                res.violation("included-ranges-after-edit", format!("ranges {:?}, edit {}: the tree stores {:?}, InputEdit::edit_range gives {:?}", rl, e.describe(), got.iter().map(|r| (r.start_byte, r.end_byte, r.start_point, r.end_point)).collect::<Vec<_>>(), want.iter().map(|r| (r.start_byte, r.end_byte, r.start_point, r.end_point)).collect::<Vec<_>>()), cj);
+                if res.too_many() { return; }
+            }
+        }
+        if ctx.out_of_time() { return; }
+    }
+    parser.set_included_ranges(&[]).unwrap();
+}
+
 pub fn worker(ctx: &Ctx, res: &mut ShardResult) {
     let zoo = crate::zoo::core_zoo();
     let nlang = zoo.len();
     let mut idx = 0usize;
+    // trees with explicit included ranges (the range arithmetic does not depend on the language: three of them)
+    let ranged_len = if ctx.mini() { 3 } else if ctx.quick() { 5 } else { 8 };
+    for z in zoo.iter().filter(|z| ["arith", "stmts", "indent"].contains(&z.name)) {
+        let info = build_info(z);
+        for d in crate::docs::docs(z, 2).iter().filter(|d| !d.is_empty() && d.len() <= ranged_len) {
+            idx += 1;
+            if !ctx.mine(idx) { continue; }
+            explore_ranged(ctx, &info, d, res);
+            if ctx.out_of_time() || res.too_many() { return; }
+        }
+    }
     for (k, depth) in params(&ctx.tier) {
         for (li, z) in zoo.iter().enumerate() {
             let info = build_info(z);
